@@ -51,8 +51,13 @@ impl Sync {
             None => (0, 0),
         };
 
-        bitbox_sync.wait_pre_meta()?;
-        let beatree_meta_wd = beatree_sync.wait_pre_meta()?;
+        // Wait for every component before looking at any result: a component that is still
+        // writing must not outlive a failed sync, because the handle may be dropped - and the
+        // directory lock released - as soon as the error has been returned.
+        let bitbox_pre_meta = bitbox_sync.wait_pre_meta();
+        let beatree_pre_meta = beatree_sync.wait_pre_meta();
+        bitbox_pre_meta?;
+        let beatree_meta_wd = beatree_pre_meta?;
 
         if let Some(PanicOnSyncMode::PostWal) = self.panic_on_sync {
             panic!("panic_on_sync is true (post-wal)")
@@ -86,11 +91,12 @@ impl Sync {
             rollback.post_meta();
         }
 
-        bitbox_sync.post_meta(shared.io_pool.make_handle())?;
+        let bitbox_post_meta = bitbox_sync.post_meta(shared.io_pool.make_handle());
         beatree_sync.post_meta();
-
-        if let Some(ref rollback) = rollback_sync {
-            rollback.wait_post_meta()?;
+        let rollback_post_meta = rollback_sync.as_ref().map(|rollback| rollback.wait_post_meta());
+        bitbox_post_meta?;
+        if let Some(res) = rollback_post_meta {
+            res?;
         }
         Ok(())
     }
